@@ -2,6 +2,7 @@ package redisemu
 
 import (
 	"fmt"
+	"sync/atomic"
 )
 
 type (
@@ -42,7 +43,7 @@ type (
 	}
 )
 
-var signals int
+var signalCounter int64
 
 func newWaitTable() *waitTable {
 	return &waitTable{
@@ -53,10 +54,11 @@ func newWaitTable() *waitTable {
 // creates a wake signal object, one-to-one mapping to a client
 // (two clients cannot wait on the same wake signal)
 func newWakeSignal() *wakeSignal {
-	signals++
+	// wait tables of several databases share this counter
+	id := int(atomic.AddInt64(&signalCounter, 1))
 	ws := &wakeSignal{
 		ready: make(chan struct{}, 1),
-		id:    signals,
+		id:    id,
 	}
 	return ws
 }
